@@ -18,7 +18,8 @@ func init() {
 		Explanation: "Decides structural necessary conditions of 'JSON validation and filtering agree with the type system' (partial claim): " +
 			"N1 null is accepted everywhere: every implementation of Type.IsValidJson returns nil, and every implementation of Type.FilterJson returns its input unchanged with no error, on the edge isNullBytes(data), and that test dominates every other effect of the method (siblings must agree), " +
 			"N2 component-wise assignability: in every IsAssignableFrom / CheckEqual implementation each recursive pairing takes the same component of the receiver and of the argument (operand symmetry), " +
-			"N3 identity fast path: a FilterJson that rebuilds JSON returns the original bytes when nothing changed, and the 'different' flag is raised on every edge where a component's filtered bytes are not the input slice. " +
+			"N3 identity fast path: a FilterJson that rebuilds JSON returns the original bytes when nothing changed, and the 'different' flag is raised on every edge where a component's filtered bytes are not the input slice, " +
+			"N4 decoded strings (member names) are written into rebuilt JSON only through an encoder, on the error edge of json.Marshal of the same string, or under guards excluding '\"', '\\' and all control characters. " +
 			"NOT decided: idempotence, validity of the rebuilt JSON, int/float normalisation - all value-level.",
 		Assumptions: commonAssumptions,
 	}
@@ -101,6 +102,7 @@ func runC17(c *an.Ctx) {
 	ruleN1(c)
 	ruleT1(c, "N2")
 	ruleN3(c)
+	ruleN4(c)
 }
 
 func ruleN1(c *an.Ctx) {
